@@ -34,6 +34,8 @@ PUSH_ITEMS = {
     'push': 'v.push(x)   (also what the normal form makes of v.extend([x]))',
     'insert': 'v.insert(i, x): the position is not part of C14 (set semantics)',
 }
+#   + v.extend(opt) / v.extend(Some(x)) / v.extend(std::iter::once(x)): at most one element (extend_by_at_most_one); an absent
+#     payload adds nothing and there is no constraint to conserve in that case
 # calls that may appear between `self.list` and the search loop without changing which element has which index
 INDEX_PRESERVING = {
     'iter': 'slice::iter', 'iter_mut': 'slice::iter_mut', 'into_iter': '(&Vec).into_iter()', 'by_ref': 'Iterator::by_ref',
@@ -79,6 +81,18 @@ def recv_field(body, call):
 
 def vec_calls(body, items, field):
     return [c for c in body.calls if c.item in items and re.search(r'\bVec::<.*>::(%s)$' % '|'.join(items), c.name) and recv_field(body, c) == field]
+
+
+def extend_by_at_most_one(body, field):
+    """`v.extend(x)` where x yields at most one element: an Option (`extend(removed.constraint)`, `extend(Some(c))`) or
+    `std::iter::once(c)`.  (`extend([c])` is a push in the normal form.)  Element = the argument."""
+    out = []
+    for c in body.calls:
+        if c.item == 'extend' and 'Extend' in (c.trait or c.name) and len(c.args) == 2 and recv_field(body, c) == field:
+            l = c.arg_local(1)
+            ty = body.locals[l].strip() if l is not None else ''
+            if ty.startswith('std::option::Option<') or ty.startswith('std::iter::Once<'): out.append(c)
+    return out
 
 
 def counter_defs(body, l):
@@ -296,16 +310,20 @@ def lookup(ctx, R, body, rm, src_field, dst_field):
     return sources
 
 
+# calls that hand a String / map on as the same value (for `records the given reason`): templates.TRANSPARENT + the string copies
+SAME_VALUE = re.compile(r'::(to_string|to_owned|as_str|as_ref|as_mut|as_deref|deref|deref_mut|branch|with_context|context|ok_or|ok_or_else|unwrap|expect|'
+                        r'clone|cloned|copied|into_owned|borrow|as_slice|into|from)(::<.*>)?$')
 SUCCESS_ADT = ('Result::Ok', 'Option::Some', 'ControlFlow::Continue'); FAILURE_ADT = ('Result::Err', 'Option::None', 'ControlFlow::Break')
 
 
-def flows_plainly_from(body, op, targets, depth=20):
+def flows_plainly_from(body, op, targets, depth=20, transparent=None):
     """the operand is one of `targets` handed on unchanged: through copies, references, success wrappers (Ok / Some /
     Continue built and taken apart again: `?`, `Ok(index)` of an inlined helper), transparent adaptors (with_context,
     ok_or, branch, ...); definitions that only carry the failure (from_residual, Err / None) are not on the way"""
     if depth == 0 or op['k'] not in ('copy', 'move'): return False
     pl = op['pl']
     if not all(T.WRAPPER_OWNER.search(a) for a, f in fields_of_place(pl)): return False
+    if pl['l'] in T._mut_borrowed(body): return False              # changed in place on the way (`reason.push_str(..)`, `params.insert(..)`)
     if pl['l'] in targets: return True
     if 1 <= pl['l'] <= body.argc: return False
     nxt = []
@@ -313,7 +331,7 @@ def flows_plainly_from(body, op, targets, depth=20):
         if k == 'call':
             nm = d['r'] or d['f']
             if 'from_residual' in nm: continue
-            if T.TRANSPARENT_NOCLONE.search(T.strip_generics_tail(nm)) and d['args']: nxt.append(d['args'][0]); continue
+            if (transparent or T.TRANSPARENT_NOCLONE).search(T.strip_generics_tail(nm)) and d['args']: nxt.append(d['args'][0]); continue
             return False
         if d['dst']['p']: return False
         rv = d['rv']
@@ -322,7 +340,18 @@ def flows_plainly_from(body, op, targets, depth=20):
         elif rv['k'] == 'agg' and rv['adt'].endswith(SUCCESS_ADT) and len(rv['ops']) == 1: nxt.append(rv['ops'][0])
         elif rv['k'] == 'agg' and rv['adt'].endswith(FAILURE_ADT): continue
         else: return False
-    return bool(nxt) and all(flows_plainly_from(body, o, targets, depth - 1) for o in nxt)
+    return bool(nxt) and all(flows_plainly_from(body, o, targets, depth - 1, transparent) for o in nxt)
+
+
+def field_operands(body, root, field):
+    """operands that initialise `root.field`: the field's slot in an aggregate assigned to root, and assignments `root.field = x`"""
+    out = []
+    for k, bi, d in body.defs_of(root):
+        if k != 'stmt': continue
+        rv = d['rv']
+        if not d['dst']['p'] and rv['k'] == 'agg' and field in rv.get('fields', []): out.append(rv['ops'][rv['fields'].index(field)])
+        elif [p.get('f') for p in d['dst']['p'] if isinstance(p, dict)] == [field] and rv['k'] == 'use': out.append(rv['ops'][0])
+    return out
 
 
 def value_root(body, op):
@@ -345,12 +374,24 @@ def one_move(ctx, name, src_field, src_ty, dst_field, dst_ty):
     if body is None: return
     oks = body.strict_ok_exits()
     rm = vec_calls(body, REMOVE_ITEMS, src_field)
-    pu = vec_calls(body, PUSH_ITEMS, dst_field)
+    pu = vec_calls(body, PUSH_ITEMS, dst_field) + extend_by_at_most_one(body, dst_field)
+    # restore: an entry without a body carries no constraint -- the None side of a test of the removed entry's `.constraint` has
+    # nothing to move (HEAD panics there: `.unwrap()`), so it counts like the push:  `if let Some(c) = removed.constraint { push(c) }`
+    nothing_to_move = set()
+    if name == 'restore_constraint':
+        for bi, st in body.stmts():
+            if st['rv']['k'] != 'discr' or st['dst']['p']: continue
+            e = T.expr(body, {'k': 'copy', 'pl': st['rv']['pl']}, depth=10)
+            own = [x for x in T.own_fields(e) if not T.WRAPPER_OWNER.search(x[0])]
+            if own and own[-1] == (('v1::RemovedConstraint', 'constraint')) or (own and own[-1][1] == 'constraint' and own[-1][0].endswith('::RemovedConstraint')):
+                if any(len(x) > 4 and any(x[4] == r.bb for r in rm) for x in T.expr_calls(e)):
+                    for k3, b3, sw in body.uses.get(st['dst']['l'], ()):
+                        if k3 == 'switch': nothing_to_move.add({v: t for v, t in sw['ts']}.get(0, sw['else']))
     # ---- the move itself: exactly one element out of src and one into dst on every successful path
     for what, calls, fld in (('remove', rm, src_field), ('push', pu, dst_field)):
         bbs = {c.bb for c in calls}
         ctx.counters['cfg_paths'] += 1
-        ctx.check(bool(bbs) and bool(oks) and T.must_pass(body, 0, oks, bbs), R + '/move/%s-on-every-success-path' % what, 'T-MUSTCALL', body.name,
+        ctx.check(bool(bbs) and bool(oks) and T.must_pass(body, 0, oks, bbs | (nothing_to_move if what == 'push' else set())), R + '/move/%s-on-every-success-path' % what, 'T-MUSTCALL', body.name,
                   'an Ok-exit is reachable without a %s on self.%s' % (what, fld), body.site())
         twice = sorted(c.bb for c in calls if c.target >= 0 and body.reach([c.target]) & bbs)
         ctx.check(not twice, R + '/move/one-%s' % what, 'T-LOOPMUST', body.name,
@@ -369,6 +410,10 @@ def one_move(ctx, name, src_field, src_ty, dst_field, dst_ty):
         lookup(ctx, R, body, c, src_field, dst_field)
     for c in pu:
         it = ctx.S.slice_operand(body, c.args[-1])
+        if name == 'relax_constraint':
+            # the constraint inside the wrapper is what must not be a copy; the reason strings next to it may be cloned
+            root = value_root(body, c.args[-1])
+            if root is not None and 'v1::RemovedConstraint' in body.locals[root]: it = ctx.S.backslice(body, [(root, 'constraint')])
         ctx.check(any(r in it.call_objs for r in rm) and not any(x.item in ('clone', 'to_owned', 'clone_from') for x in it.call_objs), R + '/move/same-element', 'T-CARRY', body.name,
                   'the pushed element is not the removed one', body.site(c.bb))
     if name == 'relax_constraint':
@@ -383,7 +428,16 @@ def one_move(ctx, name, src_field, src_ty, dst_field, dst_ty):
                 if param is None:
                     ctx.check(any(r in s.call_objs for r in rm), R + '/reason/constraint-is-removed-one', 'T-CARRY', body.name, 'wrapped constraint is not the removed one', body.site(c.bb))
                 else:
-                    ctx.check(param in s.params, R + '/reason/' + f, 'T-CARRY', body.name, 'field `%s` does not depend on: parameter _%d' % (f, param), body.site(c.bb))
+                    # "records the *given* reason": the argument itself, on every path -- not a value chosen depending on it (seed C14-8)
+                    ops = field_operands(body, root, f)
+                    if param not in s.params:
+                        ctx.bad(R + '/reason/' + f, 'T-CARRY', body.name, 'field `%s` does not depend on: parameter _%d' % (f, param), body.site(c.bb))
+                    elif ops and all(flows_plainly_from(body, o, {param}, transparent=SAME_VALUE) for o in ops):
+                        ctx.ok(R + '/reason/' + f, 'T-CARRY', body.site(c.bb))
+                    elif ops:
+                        ctx.bad(R + '/reason/' + f, 'T-CARRY', body.name, 'field `%s` is not parameter _%d handed on unchanged on every path (it is recomputed or replaced on some)' % (f, param), body.site(c.bb))
+                    else:
+                        ctx.undecided(R + '/reason/' + f, 'T-CARRY', body.site(c.bb), 'how the field is initialised is not recognised; its dependence on the parameter is decided')
     else:
         # restore: the pushed element is the `.constraint` payload of the removed entry
         for c in pu:
